@@ -82,6 +82,12 @@ def engineJudge (prop eng : String) (args obs : List String) : Bool :=
       (match Eng.concModel args with | some m => m == " ".intercalate obs | none => true))
   | "tfid" => (match Eng.tfidModel args with | some m => m == " ".intercalate obs | none => false)
   | "memo" => Memo.judge args obs
+  | "capseq" =>
+    -- C09 monitor: the capture slots after the phase are those of the rules that matched, in order; a capturing
+    -- rule that did not match changes nothing (expectation computed by the harness with Go's regexp)
+    (match args.getLast?, obs with
+     | some e, [g] => e.startsWith "exp=" && g.startsWith "got=" && (e.drop 4).toString == (g.drop 4).toString
+     | _, _ => false)
   | "tfwrap" =>
     -- C13 monitor: after 65536 chains registered by other WAFs every rule still sees its own list's value
     (match obs with
